@@ -70,3 +70,9 @@ func VerifCompactLogsWithTrailing(logs LogStore, snapIdx, lastLogIdx, trailingLo
 func VerifBackoff(round, limit uint64) int64 {
 	return int64(backoff(failureWait, round, limit))
 }
+
+// VerifLeadershipTransferInProgress reads the flag the leader loop consults
+// before it accepts a client call.
+func (r *Raft) VerifLeadershipTransferInProgress() bool {
+	return r.getLeadershipTransferInProgress()
+}
